@@ -298,3 +298,21 @@ contract(FC, "CartesianProduct.__init__", props=["C10", "C09"], lenient=True,
          modifies=["*self", "all:Dict(Str, Int)"],
          notes="\"n\" is reserved: the size entries of the per-child dictionaries are the children's minimum sizes "
                "(and, for atoms only, their maximum)")
+
+# ------------------------------------------------------------------ DisjointUnion.__init__ (C09/C08/C01): maps stored, zero sets
+REG.classes["DisjointUnion"].fields.update({"extra_parameters": Seq(Dict(Str, Str)), "fixed_values": Seq(Dict(Str, Int))})
+contract(FD, "DisjointUnion.__init__", props=["C09", "C01", "C07", "C08"], lenient=True,
+         params={"self": Obj("DisjointUnion"), "parent": CombClass, "children": Seq(CombClass),
+                 "extra_parameters": Opt(Seq(Dict(Str, Str))), "fixed_values": Opt(Seq(Dict(Str, Int)))},
+         pure_calls=["_build_children_param_maps"],
+         may_raise=["AssertionError"], asserts="raise",
+         ensures=["self.number_of_children == len(children)",
+                  "implies(not is_none(extra_parameters), self.extra_parameters == val(extra_parameters))",
+                  "implies(not is_none(fixed_values), self.fixed_values == val(fixed_values))",
+                  "len(self.extra_parameters) == len(children)",
+                  # zeroes[i]: the parent parameters that child i does not track (they must be 0 on that child)
+                  "len(self.zeroes) == len(children)",
+                  "forall(lambda i, p=Str: implies(0 <= i and i < len(children), (p in self.zeroes[i]) == "
+                  "((p in parent.extra_parameters) and not (p in self.extra_parameters[i]))))"],
+         modifies=["*self", "all:Set(Str)", "all:Dict(Str, Str)", "all:Dict(Str, Int)"], self_invariant=False,
+         notes="a parent parameter no parameter of child i maps from is forced to zero on that child")
